@@ -5,6 +5,11 @@
     "infra" : the static infrastructure description (`Sim.infra`),
     "infra_full" : every InfrastructureInfo field (`Sim.infraInfo`) when the request carries
                    "net": {"phases":[bits], "constraints":[{"current":[[station,bits]…],"limit":bits,"name":str|null}]}.
+    "infra_at" : for every view (same order) {"t": period, + the fields of "infra_full"}: the description
+                 handed out in THAT period (`Sim.infraInfoAt`, `AcnModel/NetEdits.lean`) when "net" also carries
+                 "edits": [{"from": first period in force, "ops": [{"op": "add"|"remove"|"update", "name": str|null,
+                 "current": [[station,bits]…], "limit": bits, "new_name": str|null}…]}…] (application order);
+                 without edits it repeats "infra_full".
   An optional "ignored": [timestamp…] lists the events of a type the simulator has no handler for that
   are also in the queue: the run is then `Sim.runI` (`AcnModel/Ignored.lean`), whose "event_history" holds
   the plug-in / unplug / recompute entries only.
@@ -12,6 +17,7 @@
 import AcnModel.WireSim
 import AcnModel.SchedView
 import AcnModel.Ignored
+import AcnModel.NetEdits
 open Lean Acn Acn.Wire Acn.EventCore Acn.Sim
 
 def jActive (e : Evse.Ev Float) : Json :=
@@ -40,6 +46,34 @@ def parseNet (j : Json) : Except String (NetDesc Float) := do
     pure (Network.Current.ofDict cur, ← getF c "limit", name)
   pure { phases, constraints := cs }
 
+def parseCurrent (c : Json) : Except String (Network.Current Float) := do
+  let cur ← (← getArr c "current").mapM fun p => do
+    match ← asArr p with
+    | [s, v] => pure (← s.getStr?, ← asF v)
+    | _ => throw "current entry must be [station, coefficient]"
+  pure (Network.Current.ofDict cur)
+
+def parseConOp (o : Json) : Except String (ConOp Float) := do
+  let name ← getOpt o "name" (fun v => v.getStr?)
+  match ← getStr o "op" with
+  | "add" => pure (.add (← parseCurrent o) (← getF o "limit") name)
+  | "remove" =>
+    match name with
+    | some nm => pure (.remove nm)
+    | none => throw "remove needs a name"
+  | "update" =>
+    match name with
+    | some nm => pure (.update nm (← parseCurrent o) (← getF o "limit") (← getOpt o "new_name" (fun v => v.getStr?)))
+    | none => throw "update needs a name"
+  | other => throw s!"unknown network op {other}"
+
+def parseEdits (nj : Json) : Except String (List (NetEdit Float)) :=
+  match nj.getObjVal? "edits" with
+  | .error _ => pure []
+  | .ok v => do
+    (← asArr v).mapM fun e => do
+      pure { since := ← getNat e "from", ops := ← (← getArr e "ops").mapM parseConOp }
+
 def jInfra (i : Infra Float) : Json :=
   Json.mkObj [("constraint_matrix", jFss i.constraintMatrix), ("constraint_limits", jFs i.constraintLimits),
               ("phases", jFs i.phases), ("voltages", jFs i.voltages),
@@ -60,6 +94,8 @@ def handle (j : Json) : Except String Json := do
   | .error _ => pure out
   | .ok nj =>
     let nd ← parseNet nj
-    pure (out.setObjVal! "infra_full" (jInfra (infraInfo cfg nd)))
+    let edits ← parseEdits nj
+    let ia := vs.map fun v => (jInfra (infraInfoAt cfg nd edits v.iter)).setObjVal! "t" (jN v.iter)
+    pure ((out.setObjVal! "infra_full" (jInfra (infraInfo cfg nd))).setObjVal! "infra_at" (Json.arr ia.toArray))
 
 def main : IO Unit := runDriver handle
